@@ -19,8 +19,12 @@ import Proofs.FlatNatural
 import Proofs.FlatRound
 import Proofs.FlatExamples
 import SpyneModel.Generated.Facts03
+import Props.Facts08Good
 namespace SpyneModel.Props.C03
 open SpyneModel SpyneModel.Flat SpyneModel.Generated
+
+/-- the leaf codecs of the current tree obey the shared leaf laws (C08) -/
+theorem leafLaws03 : LeafLaws facts03.leaf := SpyneModel.Props.leafLaws08
 
 /-! ### the documented notation reaches the user function, whatever the order of the pairs -/
 
@@ -34,7 +38,7 @@ theorem documented_any_order (cfg : Cfg) (fields : List Fld) (ms : Members) (doc
     (hwf : WfSig fields) (hkeys : KeysOk cfg.delim fields) (hwt : WtMembers facts03 fields ms)
     (hp : doc.Perm (docOf facts03 cfg.delim fields ms)) :
     decode facts03 cfg fields doc = .ok (.obj (expAttrs fields ms)) :=
-  decode_documented_lenient facts03 cfg fields ms doc hstrict hsoft (by simp [facts03]) hwf hkeys hwt hp
+  decode_documented_lenient facts03 leafLaws03 cfg fields ms doc hstrict hsoft (by simp [facts03]) hwf hkeys hwt hp
 
 /-- The same from the query string: any list of `name=value` pairs — percent-encoded, joined by
     `&` — whose grouping by name (what `_parse_qs` builds: names in order of first occurrence, the
@@ -70,7 +74,7 @@ theorem documented_strict (cfg : Cfg) (fields : List Fld) (ms : Members) (doc : 
     (hwf : WfSig fields) (hkeys : KeysOk cfg.delim fields) (hwt : WtMembers facts03 fields ms)
     (hcontig : ContigMembers ms) (hp : doc.Perm (docOf facts03 cfg.delim fields ms)) :
     decode facts03 cfg fields doc = .ok (.obj (expAttrs fields ms)) :=
-  decode_documented_strict facts03 (by decide) cfg fields ms doc hstrict hsoft (by simp [facts03]) hwf hkeys hwt
+  decode_documented_strict facts03 leafLaws03 (by decide) cfg fields ms doc hstrict hsoft (by simp [facts03]) hwf hkeys hwt
     hcontig hp
 
 /-- twelve elements with strict arrays are accepted by the current tree (model, computed) -/
@@ -141,8 +145,9 @@ theorem parse_qs_of_written (pairs : List (Text × Option Text)) (hne : ∀ p, p
   parseQs_renderQs facts03 (by decide) pairs hne
 
 /-- the text of a primitive is read back as the value (integers within the length guard of the tree) -/
-theorem leaf_text_exact (p : PK) (v : Leaf) (h : LeafOk facts03 p v) : leafFrom facts03 p (leafText v) = .ok v :=
-  leafFrom_leafText facts03 p v h
+theorem leaf_text_exact (p : PK) (v : Leaf) (h : LeafOk facts03 p v) (soft nillable : Bool) :
+    ∃ s, leafText facts03 p v = some s ∧ nativeOf facts03 soft nillable p (some s) = .ok v :=
+  leafFrom_leafText facts03 leafLaws03 p v h soft nillable
 
 /-! ### validator = soft -/
 
@@ -190,38 +195,39 @@ theorem same_class_arguments_soft :
     response starts with Content-Type and ends with the truthful Content-Length, and every declared
     out-header member that is set is sent under its name with its exact text -/
 theorem return_exact (mime : Text) (hdrFields : List Fld) (hp : PrimHeader hdrFields) (attrs : Attrs)
-    (v : Leaf) (text : Text) (ht : leafText v = some text) :
-    (response mime hdrFields (.obj attrs) (.leaf v)).2 = utf8Enc text ∧
-    utf8Dec (response mime hdrFields (.obj attrs) (.leaf v)).2 = text ∧
-    (response mime hdrFields (.obj attrs) (.leaf v)).1.head? = some ("Content-Type".toList, mime) ∧
-    (response mime hdrFields (.obj attrs) (.leaf v)).1.getLast? =
+    (p : PK) (v : Leaf) (text : Text) (ht : leafText facts03 p v = some text) :
+    (response facts03 mime hdrFields (.obj attrs) (.leaf p v)).2 = utf8Enc text ∧
+    utf8Dec (response facts03 mime hdrFields (.obj attrs) (.leaf p v)).2 = text ∧
+    (response facts03 mime hdrFields (.obj attrs) (.leaf p v)).1.head? = some ("Content-Type".toList, mime) ∧
+    (response facts03 mime hdrFields (.obj attrs) (.leaf p v)).1.getLast? =
       some ("Content-Length".toList, natText (utf8Enc text).length) ∧
-    ∀ n occ t hv htext, (n, occ, t) ∈ hdrFields → getAttr attrs n = .leaf hv → hdrText hv = some htext →
-      (n, htext) ∈ (response mime hdrFields (.obj attrs) (.leaf v)).1 := by
-  have hb := response_body mime hdrFields (.obj attrs) v text ht
-  have hf := response_frame mime hdrFields (.obj attrs) (.leaf v)
+    ∀ n (occ : Flat.Occ) hp' hv htext, (n, occ, Flat.Ty.prim hp') ∈ hdrFields → getAttr attrs n = .leaf hv →
+      hdrText facts03 hp' hv = some htext →
+      (n, htext) ∈ (response facts03 mime hdrFields (.obj attrs) (.leaf p v)).1 := by
+  have hb := response_body facts03 mime hdrFields (.obj attrs) p v text ht
+  have hf := response_frame facts03 mime hdrFields (.obj attrs) (.leaf p v)
   refine ⟨hb.1, hb.2, hf.1, ?_, ?_⟩
   · rw [hf.2, hb.1]
-  · intro n occ t hv htext hmem hget htx
-    exact response_header mime hdrFields hp attrs (.leaf v) n occ t hmem hv htext hget htx
+  · intro n occ hp' hv htext hmem hget htx
+    exact response_header facts03 mime hdrFields hp attrs (.leaf p v) n occ hp' hmem hv htext hget htx
 
 /-- A declared out-header member of type DateTime (`__out_header__`, e.g. `Expires`) is sent as an
     RFC 1123 date in GMT that denotes the SAME INSTANT as the value that was set: an aware value
     of any UTC offset is converted (not relabelled), a naive value is taken as GMT. Other declared
     members (Integer, Unicode, Boolean) carry their exact text (`return_exact`). -/
 theorem out_header_datetime_same_instant (mime : Text) (hdrFields : List Fld) (hp : PrimHeader hdrFields)
-    (attrs : Attrs) (ret : RetVal) (n : Text) (occ : Occ) (t : Ty) (x : DateTime)
-    (hf : (n, occ, t) ∈ hdrFields) (hv : getAttr attrs n = .leaf (.dt x))
+    (attrs : Attrs) (ret : RetVal) (n : Text) (occ : Flat.Occ) (x : DateTime)
+    (hf : (n, occ, Flat.Ty.prim .dateTime) ∈ hdrFields) (hv : getAttr attrs n = .leaf (.dt x))
     (hx : x.valid = true) (hfirst : ¬ (x.date.y = 1 ∧ x.date.m = 1 ∧ x.date.d = 1)) :
-    (n, rfc1123 (toUtc x)) ∈ (response mime hdrFields (.obj attrs) ret).1 ∧
+    (n, rfc1123 (toUtc x)) ∈ (response facts03 mime hdrFields (.obj attrs) ret).1 ∧
     (toUtc x).tz = some 0 ∧ instantSec (toUtc x) = instantSec x ∧
     (toUtc x).time.h < 24 ∧ (toUtc x).time.mi < 60 ∧ (toUtc x).time.s = x.time.s := by
   have h := toUtc_instant x hx hfirst
-  exact ⟨response_header mime hdrFields hp attrs ret n occ t hf (.dt x) _ hv rfl, h.2.1, h.1, h.2.2⟩
+  exact ⟨response_header facts03 mime hdrFields hp attrs ret n occ .dateTime hf (.dt x) _ hv rfl, h.2.1, h.1, h.2.2⟩
 
 /-- raw bytes (ByteArray) are sent as they are -/
 theorem return_bytes_exact (mime : Text) (hdrFields : List Fld) (hdr : Node) (chunks : List (List Nat)) :
-    (response mime hdrFields hdr (.bytes chunks)).2 = chunks.flatMap id := rfl
+    (response facts03 mime hdrFields hdr (.bytes chunks)).2 = chunks.flatMap id := rfl
 
 /-! ### non-vacuity: the hypotheses are met by a concrete request
     `f(p: Array(C), q: Boolean)`, `class C: i = Integer; s = Unicode`,
